@@ -2,6 +2,7 @@ SPECIFICATION TraceSpec
 CONSTANTS
   Shapes = {}
   StepVals = {}
+  Broadcast = FALSE
   MaxSlices = 0
   MaxWrites = 0
   MaxReshapes = 0
